@@ -7,8 +7,9 @@
        parse_complex accepts the text (s_cx), vnacal_name_to_type (s_type), whether
        vnaproperty_set_subtree accepts the text as a key expression (s_keyok);
      * the version line as scanned by the two sscanf calls (vline).
-   Allocation failure is not modelled (the loader's only ESys outcome here is a property key that
-   the property syntax rejects).  The model follows the code as it is *after* the fixes D27, D27b,
+   Allocation failure is not modelled; a property key that the property syntax rejects is EBADMSG
+   (fix DO91; before it: the system error EINVAL, the loader's only ESys outcome), so ESys is no longer
+   produced by the model (CalLoadErrClass.load_version_ok_badmsg).  The model follows the code as it is *after* the fixes D27, D27b,
    D28, D46 (matrices[] cleared per entry, entry kind checked, ascending from the second entry,
    NaN rejected, dimensions must fit the type, recursive aliases rejected). *)
 Require Import ZArith List Bool String QArith.
@@ -321,7 +322,7 @@ Fixpoint props_ok (n : node) : res unit :=
       (fix go (l : list (node * node)) : res unit :=
          match l with
          | [] => Ok tt
-         | (NS k, v) :: r => if s_keyok k then match props_ok v with Err e => Err e | Ok _ => go r end else Err ESys
+         | (NS k, v) :: r => if s_keyok k then match props_ok v with Err e => Err e | Ok _ => go r end else Err EBadMsg
          | (_, _) :: r => go r
          end) pairs
   end.
